@@ -6,33 +6,41 @@ VERIF = os.path.dirname(os.path.dirname(os.path.abspath(__file__)))
 tier = sys.argv[1] if len(sys.argv) > 1 else "quick"
 only = sys.argv[2:]  # optional names
 rows = []
-assert subprocess.run(["git", "-C", "/repo", "status", "--short"], capture_output=True, text=True).stdout.strip() == "", "/repo not clean"
 for d in sorted(glob.glob(os.path.join(VERIF, "seeded", "*", ""))):
     name = os.path.basename(d.rstrip("/"))
     if only and name not in only:
         continue
     meta = json.load(open(os.path.join(d, "meta.json")))
-    subprocess.run(["git", "-C", "/repo", "apply", os.path.join(d, "patch.diff")], check=True)
+    # the seeded change lives in a scratch worktree; /repo itself is never touched
+    wt = "/tmp/vt/rerun-" + name
+    subprocess.run(["git", "-C", "/repo", "worktree", "remove", "--force", wt], capture_output=True)
+    subprocess.run(["git", "-C", "/repo", "worktree", "prune"])
+    subprocess.run(["git", "-C", "/repo", "worktree", "add", "-q", "--detach", wt, "HEAD"], check=True)
+    subprocess.run(["git", "-C", wt, "apply", os.path.join(d, "patch.diff")], check=True)
     res = {}
+    env = dict(os.environ, VERIF_REPO=wt)
     try:
         for p in meta["breaks_properties"]:
-            r = subprocess.run([os.path.join(VERIF, "check"), p, tier], capture_output=True, text=True, cwd=VERIF)
+            r = subprocess.run([os.path.join(VERIF, "check"), p, tier], capture_output=True, text=True, cwd=VERIF, env=env)
             m = re.search(r"(violated: .*|WATCHDOG .*|WARNING: DATA RACE|fails: .*)", r.stdout)
             res[p] = {"exit": r.returncode, "detected": r.returncode == 1 and "VIOLATION property=%s" % p in r.stdout,
                       "first_report": m.group(1)[:260] if m else ""}
             print(name, p, "exit", r.returncode, (m.group(1)[:150] if m else ""), flush=True)
     finally:
-        subprocess.run(["git", "-C", "/repo", "checkout", "--", "."], check=True)
+        subprocess.run(["git", "-C", "/repo", "worktree", "remove", "--force", wt])
+        import shutil
+        tag = "alt-" + "".join(ch if ch.isalnum() else "_" for ch in os.path.realpath(wt))[-40:]
+        shutil.rmtree(os.path.join(VERIF, "work", tag), ignore_errors=True)
     meta.setdefault("checks_run", {})["tier"] = tier
     meta["checks_run"]["results"] = res
     json.dump(meta, open(os.path.join(d, "meta.json"), "w"), indent=1)
     rows.append((name, meta, res))
 with open(os.path.join(VERIF, "seeded", "RESULTS.md"), "w") as f:
-    f.write("| seed | what it needs to manifest | check | detected (%s tier) | first report |\n|---|---|---|---|---|\n" % tier)
-    for name, meta, res in rows:
-        for p, r in res.items():
-            f.write("| %s | %s | %s | %s | %s |\n" % (name, meta.get("needs_to_manifest", "").replace("|", "/"), p,
-                                                   "yes" if r["detected"] else "NO", r["first_report"].replace("|", "/")[:160]))
-# evidence files describe runs on the unchanged tree only: drop what the runs against seeded trees wrote
-subprocess.run(["git", "-C", VERIF, "checkout", "--", "evidence"])
-print(open(os.path.join(VERIF, "seeded", "RESULTS.md")).read())
+    f.write("| seed | what it needs to manifest | check | detected | first report |\n|---|---|---|---|---|\n")
+    for d in sorted(glob.glob(os.path.join(VERIF, "seeded", "*", "meta.json"))):
+        meta = json.load(open(d))
+        for p, r in meta.get("checks_run", {}).get("results", {}).items():
+            f.write("| %s | %s | %s | %s (%s tier) | %s |\n" % (meta["name"], meta.get("needs_to_manifest", "").replace("|", "/"), p,
+                                                             "yes" if r["detected"] else "NO", meta["checks_run"].get("tier", "quick"),
+                                                             r["first_report"].replace("|", "/")[:160]))
+print(open(os.path.join(VERIF, "seeded", "RESULTS.md")).read()[-1500:])
